@@ -72,6 +72,40 @@ func valueOf(it absItem) any {
 	return nil
 }
 
+// perturb returns environment collections that differ from the given ones.
+func perturb(colls map[string]system.Collection) map[string]system.Collection {
+	out := map[string]system.Collection{}
+	for n, c := range colls {
+		switch {
+		case len(c) > 1:
+			r := system.Collection{}
+			for j := len(c) - 2; j >= 0; j-- {
+				r = append(r, c[j])
+			}
+			out[n] = r
+		case len(c) == 1:
+			switch v := c[0].(type) {
+			case system.Integer:
+				// the other side of zero, so that comparisons against small numbers flip
+				if v > 0 {
+					out[n] = system.Collection{system.Integer(-int32(v)/2 - 1)}
+				} else {
+					out[n] = system.Collection{system.Integer(-(int32(v) / 2) + 11)}
+				}
+			case system.String:
+				out[n] = system.Collection{system.String(string(v) + "z")}
+			case system.Boolean:
+				out[n] = system.Collection{!v}
+			default:
+				out[n] = system.Collection{system.Integer(5)}
+			}
+		default:
+			out[n] = system.Collection{system.Integer(1)}
+		}
+	}
+	return out
+}
+
 type rec struct {
 	ID     string               `json:"id"`
 	Ast    json.RawMessage      `json:"ast"`
@@ -149,10 +183,19 @@ func main() {
 		for _, n := range names {
 			opts = append(opts, evalopts.EnvVariable(n, colls[n]))
 		}
+		// the other inputs of the cross evaluation: the twin patient MR4 alone, and every environment collection changed
+		// (reversed, its last item dropped when it has several, a singleton replaced by another value of its type)
+		other := perturb(colls)
+		opts2 := []fhirpath.EvaluateOption{}
+		for _, n := range names {
+			opts2 = append(opts2, evalopts.EnvVariable(n, other[n]))
+		}
 		snap := lib.TakeSnapshot([]proto.Message{mr1, mr4, mr2}, colls)
-		out, out2 := lib.EvalTwice(forest, g.Text, lib.AsResources(mr1, mr2), nil, func() []fhirpath.EvaluateOption { return opts })
+		out, reeval, cross := lib.EvalCross(forest, g.Text, lib.AsResources(mr1, mr2), func() []fhirpath.EvaluateOption { return opts },
+			lib.AsResources(mr4), func() []fhirpath.EvaluateOption { return opts2 })
 		mut := snap.Report()
-		mut["reeval_differs"] = !lib.SameOutcome(out, out2)
+		mut["reeval_differs"] = reeval
+		mut["crosseval_differs"] = cross
 		if err := w.Write(map[string]any{"id": g.ID, "ast": g.Ast, "src": g.Text, "out": out, "kind": "prog", "mut": mut,
 			"parent": g.Parent, "prop": g.Prop, "depth": g.Depth, "lane": g.Lane}); err != nil {
 			lib.Fatal("%v", err)
